@@ -22,7 +22,7 @@ fn kp<S: MdkStorageProvider>(mdk: &MDK<S>, keys: &Keys) -> Event {
     EventBuilder::new(Kind::MlsKeyPackage, c).tags(tags).sign_with_keys(keys).unwrap()
 }
 
-struct Inv { rumor: UnsignedEvent, shape: bool, dec: bool, kp: u64, gid: u64, id: Option<u64> }
+struct Inv { rumor: UnsignedEvent, shape: bool, dec: bool, kp: u64, gid: u64, id: Option<u64>, nostr: Option<[u8; 32]>, mls: Option<GroupId> }
 
 struct Scene<S: MdkStorageProvider> {
     b: MDK<S>, _bk: Keys,
@@ -51,30 +51,63 @@ impl<S: MdkStorageProvider> Scene<S> {
             let wb = r.welcome_rumors[0].clone();
             let wc = r.welcome_rumors[1].clone();
             // 0/1: the valid invitation for B to group g
-            invs.push(Inv { rumor: wb.clone(), shape: true, dec: true, kp: g, gid: g, id: Some(g * 10) });
+            invs.push(Inv { rumor: wb.clone(), shape: true, dec: true, kp: g, gid: g, id: Some(g * 10), nostr: None, mls: None });
             if g == 1 {
                 // 2: wrong kind ; 3: encoding tag dropped ; 4: content is base64 but not an MLS message ; 5: invitation for C's key package ; 6: rumor without id
                 let mut x = wb.clone(); x.kind = Kind::TextNote; x.id = None; x.ensure_id();
-                invs.push(Inv { rumor: x, shape: false, dec: true, kp: g, gid: g, id: Some(12) });
+                invs.push(Inv { rumor: x, shape: false, dec: true, kp: g, gid: g, id: Some(12), nostr: None, mls: None });
                 let mut x = wb.clone(); x.tags = nostr::Tags::from_list(x.tags.iter().filter(|t| t.kind().to_string() != "encoding").cloned().collect::<Vec<Tag>>()); x.id = None; x.ensure_id();
-                invs.push(Inv { rumor: x, shape: false, dec: false, kp: g, gid: g, id: Some(13) });
+                invs.push(Inv { rumor: x, shape: false, dec: false, kp: g, gid: g, id: Some(13), nostr: None, mls: None });
                 let mut x = wb.clone(); x.content = "AAECAwQFBgcICQ==".into(); x.id = None; x.ensure_id();
-                invs.push(Inv { rumor: x, shape: true, dec: false, kp: g, gid: g, id: Some(14) });
+                invs.push(Inv { rumor: x, shape: true, dec: false, kp: g, gid: g, id: Some(14), nostr: None, mls: None });
                 // an invitation to a group B was never invited to (only C holds a matching key package)
                 let a3 = MDK::new(MdkMemoryStorage::new()); let a3k = Keys::generate();
                 let cfg3 = NostrGroupConfigData::new("g3".into(), "d".into(), None, None, None, vec![RelayUrl::parse("wss://test.relay").unwrap()], vec![a3k.public_key()]);
                 let r3 = a3.create_group(&a3k.public_key(), vec![kp(&c, &ck)], cfg3).unwrap();
                 let _ = wc;
-                invs.push(Inv { rumor: r3.welcome_rumors[0].clone(), shape: true, dec: true, kp: 99, gid: 3, id: Some(15) });
+                invs.push(Inv { rumor: r3.welcome_rumors[0].clone(), shape: true, dec: true, kp: 99, gid: 3, id: Some(15), nostr: None, mls: None });
                 let mut x = wb.clone(); x.id = None;
-                invs.push(Inv { rumor: x, shape: true, dec: true, kp: g, gid: g, id: None });
+                invs.push(Inv { rumor: x, shape: true, dec: true, kp: g, gid: g, id: None, nostr: None, mls: None });
             }
             inviters.push((a, ak, gid));
         }
         // order: index 0 = group1 valid, 1..=5 = malformed variants of group 1, 6 = group2 valid
+        for inv in invs.iter_mut() {
+            if inv.gid == 1 || inv.gid == 2 {
+                let (a, _, gid) = &inviters[(inv.gid - 1) as usize];
+                inv.nostr = a.get_group(gid).ok().flatten().map(|g| g.nostr_group_id); inv.mls = Some(gid.clone());
+            }
+        }
         Scene { b, _bk: bk, inviters, invs, kick: None }
     }
     fn gid(&self, g: u64) -> GroupId { self.inviters[(g - 1) as usize].2.clone() }
+    /// invitation 8 (built on first use, after 7): a hostile outsider creates its own group with B, rotates that group's Nostr
+    /// group id onto the id of group 1 (public: it is the h tag of every group event) and invites B again.  Storing it would
+    /// re-point the routing of group 1's events.
+    fn build_hostile(&mut self) {
+        self.build_reinvite();
+        if self.invs.len() != 8 { return; }
+        let n1 = match self.invs[0].nostr { Some(n) => n, None => return };
+        let (kp1, kp2) = (kp(&self.b, &self._bk), kp(&self.b, &self._bk));
+        let m = MDK::new(MdkMemoryStorage::new()); let mk = Keys::generate();
+        let mut first: Option<(UnsignedEvent, [u8; 32])> = None;
+        let built = (|| -> Option<(UnsignedEvent, GroupId)> {
+            let cfg = NostrGroupConfigData::new("gx".into(), "d".into(), None, None, None, vec![RelayUrl::parse("wss://test.relay").unwrap()], vec![mk.public_key()]);
+            let r = m.create_group(&mk.public_key(), vec![kp1], cfg).ok()?; let gx = r.group.mls_group_id.clone();
+            first = Some((r.welcome_rumors.first().cloned()?, r.group.nostr_group_id));
+            m.merge_pending_commit(&gx).ok()?;
+            m.remove_members(&gx, &[self._bk.public_key()]).ok()?; m.merge_pending_commit(&gx).ok()?;
+            m.update_group_data(&gx, mdk_core::groups::NostrGroupDataUpdate::new().nostr_group_id(n1)).ok()?; m.merge_pending_commit(&gx).ok()?;
+            let r2 = m.add_members(&gx, &[kp2]).ok()?; m.merge_pending_commit(&gx).ok()?;
+            Some((r2.welcome_rumors?.first().cloned()?, gx))
+        })();
+        if let (Some((rumor, gx)), Some((r1, nx))) = (built, first) {
+            self.invs.push(Inv { rumor, shape: true, dec: true, kp: 4, gid: 4, id: Some(28), nostr: Some(n1), mls: Some(gx.clone()) });
+            // invitation 9: the hostile inviter's FIRST welcome to the same group (its own Nostr id): harmless by itself, but once it is
+            // stored the group is a stored group whose record a later welcome rewrites
+            self.invs.push(Inv { rumor: r1, shape: true, dec: true, kp: 5, gid: 4, id: Some(29), nostr: Some(nx), mls: Some(gx) });
+        }
+    }
     /// invitation 7 (built on first use): the inviter of group 2 removes B, renames the group and re-adds B with a fresh key
     /// package: an invitation to the same group at a LATER epoch.  The removal commit is kept as `kick`.
     fn build_reinvite(&mut self) {
@@ -91,7 +124,7 @@ impl<S: MdkStorageProvider> Scene<S> {
             r.welcome_rumors?.first().cloned()
         })();
         self.kick = kick;
-        if let Some(rumor) = built { self.invs.push(Inv { rumor, shape: true, dec: true, kp: 3, gid: 2, id: Some(27) }); }
+        if let Some(rumor) = built { self.invs.push(Inv { rumor, shape: true, dec: true, kp: 3, gid: 2, id: Some(27), nostr: None, mls: None }); }
     }
     fn fingerprint(&self, res: &str) -> String {
         let mut parts = vec![format!("res={res}")];
@@ -130,12 +163,16 @@ impl<S: MdkStorageProvider> Scene<S> {
                         let r = a.add_members(gid, &[fresh_kp]).ok()?; a.merge_pending_commit(gid).ok()?;
                         r.welcome_rumors?.first().cloned()
                     })();
-                    match built { Some(rumor) => self.invs.push(Inv { rumor, shape: true, dec: true, kp: 3, gid: 2, id: Some(27) }), None => return (format!("{} | unbuilt=1", t.join(" ")), "UNKNOWN-CASE".into()) }
+                    match built { Some(rumor) => self.invs.push(Inv { rumor, shape: true, dec: true, kp: 3, gid: 2, id: Some(27), nostr: None, mls: None }), None => return (format!("{} | unbuilt=1", t.join(" ")), "UNKNOWN-CASE".into()) }
                 }
+                if (i == 8 || i == 9) && self.invs.len() <= i { self.build_hostile(); if self.invs.len() <= i { return (format!("{} | unbuilt=1", t.join(" ")), "UNKNOWN-CASE".into()); } }
                 let inv = &self.invs[i];
+                // ground truth (from B's stored state, not from the outcome): the invitation's Nostr group id is already held by a
+                // different stored group - such an invitation cannot be stored (the id routes incoming events)
+                let collides = match (&inv.nostr, &inv.mls) { (Some(n), Some(g)) => self.b.get_groups().map(|gs| gs.iter().any(|x| x.nostr_group_id == *n && x.mls_group_id != *g)).unwrap_or(false), _ => false };
                 let wid = EventId::from_byte_array([wr as u8 + 1; 32]);
                 let r = catch_unwind(AssertUnwindSafe(|| self.b.process_welcome(&wid, &inv.rumor)));
-                let facts = format!("shape={} dec={} kp={} gid={} id={}", inv.shape as u8, inv.dec as u8, inv.kp, inv.gid, inv.id.map(|x| x.to_string()).unwrap_or("-".into()));
+                let facts = format!("shape={} dec={} kp={} gid={} id={}", inv.shape as u8, (inv.dec && !collides) as u8, inv.kp, inv.gid, inv.id.map(|x| x.to_string()).unwrap_or("-".into()));
                 let res = match r { Ok(Ok(_)) => "ok", Ok(Err(_)) => "err", Err(_) => "PANIC" };
                 (format!("{} | {facts}", t.join(" ")), self.fingerprint(res))
             }
@@ -195,8 +232,8 @@ fn run_all<S: MdkStorageProvider, F: Fn() -> S>(run: &mut Run, mk: F, backend: &
             let mut cur = vec![];
             for _ in 0..(len / 2 + g.below(len)) {
                 let k = g.below(100);
-                let inv = *g.pick(&[0u64, 0, 0, 6, 6, 1, 2, 3, 4, 5, 7, 7]);
-                cur.push(if k < 50 { format!("WL PROCESS {inv} {}", g.below(3) + if inv == 6 { 3 } else if inv == 7 { 6 } else { 0 }) }
+                let inv = *g.pick(&[0u64, 0, 0, 6, 6, 1, 2, 3, 4, 5, 7, 7, 8, 8, 9, 9]);
+                cur.push(if k < 50 { format!("WL PROCESS {inv} {}", g.below(3) + if inv == 6 { 3 } else if inv == 7 { 6 } else if inv == 8 { 9 } else if inv == 9 { 12 } else { 0 }) }
                     else if k < 68 { format!("WL ACCEPT {}", *g.pick(&[0u64, 0, 6, 4, 6])) }
                     else if k < 82 { format!("WL DECLINE {}", *g.pick(&[0u64, 6, 0, 5, 7])) }
                     else if k < 86 { "WL KICK".to_string() }
@@ -234,6 +271,15 @@ fn run_all<S: MdkStorageProvider, F: Fn() -> S>(run: &mut Run, mk: F, backend: &
                 if t[1] == "ACCEPT" && fp.starts_with("res=ok") && a.starts_with(&format!("g{g}=0/")) && (!was_active || accepted_group == Some(g)) && !a.ends_with("/1/1") {
                     run.oracle_fail("C16", "", format!("[{backend}] accepted invitation but group {g} is not (joined, self-update required): {a}"), hist.join(" || "));
                 }
+            }
+            // C16: events of a group the user is active in still route to that group (no invitation re-points its Nostr group id)
+            for g in 1..=2u64 {
+                let gid = sc.gid(g);
+                if let Ok(Some(rec)) = sc.b.get_group(&gid) { if rec.state == GroupState::Active {
+                    use mdk_storage_traits::groups::GroupStorage as _; use openmls_traits::OpenMlsProvider as _;
+                    let routed = sc.b.provider.storage().find_group_by_nostr_group_id(&rec.nostr_group_id).ok().flatten().map(|x| x.mls_group_id);
+                    if routed.as_ref() != Some(&gid) { run.oracle_fail("C16", "", format!("[{backend}] after `{l}` the Nostr group id of active group {g} routes to another stored group"), hist.join(" || ")); }
+                } }
             }
             // C08: after a successful accept the stored record of the joined group mirrors the MLS state joined (epoch, name)
             if t[1] == "ACCEPT" && fp.starts_with("res=ok") {
